@@ -1,6 +1,69 @@
-(** Entry points for C03 (stub: replaced by the property's own entry file). *)
-From Coq Require Import ZArith List.
-From GV Require Import Base.Val.
+(** Entry points for C03 (default classification).
+
+    Wire format.  number  = (m s)  meaning m * 2^s  (s >= 0; the harness scales all numbers of
+                                   one case by a common power of two so that they are integers)
+                  taxon   = (id thr report)   thr = () | (number)
+                  lineage = (taxon ...)       own taxon first, then ancestors
+                  genomes = (lineage ...), dists = (number ...)
+                  obs     = (closest dist predicted primary next report)  options as () / (x)
+    results of ops 1/2 omit the distance: (closest predicted primary next report)
+    ops  1 classify (repaired next_taxon)   (genomes dists)      -> (0 obs) | (1 code)
+         2 classify_orig (code as found)    (genomes dists)      -> (0 obs) | (1 code)
+         3 check (the oracle of Spec/C03Spec.v)  (genomes dists obs) -> 0/1
+         4 binary32 <= binary64 through Flocq    (bits32 bits64)  -> 0/1
+         5 binary32 <  binary32 through Flocq    (bits32 bits32)  -> 0/1
+         6 the same two comparisons on scaled integers  (number number) -> (le lt) *)
+From Coq Require Import ZArith List Bool.
+From GV Require Import Base.Val Base.F32 Model.C03Classify Spec.C03Spec.
+Import ListNotations.
 Open Scope Z_scope.
 
-Definition dispatch (op : Z) (a : val) : val := vbad.
+Definition to_num (v : val) : Z :=
+  match v with
+  | VL [VI m; VI s] => Z.shiftl m s
+  | VI z => z
+  | _ => 0
+  end.
+
+Definition to_taxon (v : val) : taxon :=
+  match v with
+  | VL [VI i; th; VI rp] =>
+      mkTaxon i (match th with VL [x] => Some (to_num x) | _ => None end) (negb (rp =? 0))
+  | _ => mkTaxon (-1) None false
+  end.
+
+Definition to_lineage (v : val) : lineage := map to_taxon (to_list v).
+Definition to_genomes (v : val) : list lineage := map to_lineage (to_list v).
+Definition to_dists (v : val) : list Z := map to_num (to_list v).
+
+Definition to_obs (v : val) : option obs :=
+  match v with
+  | VL [VI c; d; p; pr; n; rp] =>
+      Some (mkObs (Z.to_nat c) (to_num d) (to_opt to_Z p) (to_opt to_nat pr) (to_opt to_Z n) (to_opt to_Z rp))
+  | _ => None
+  end.
+
+Definition cerr_code (e : cerr) : Z :=
+  match e with EmptyDists => 1 | GenomeIndex => 2 | NoTaxon => 3 | Fuel => 4 end.
+
+Definition vobs (o : obs) : val :=
+  VL [vnat (o_closest o); vopt VI (o_predicted o); vopt vnat (o_primary o);
+      vopt VI (o_next o); vopt VI (o_report o)].
+
+Definition vcres (r : cres result) : val :=
+  match r with COk x => vok (vobs (observe x)) | CErr e => verr (cerr_code e) end.
+
+Definition dispatch (op : Z) (a : val) : val :=
+  match op, a with
+  | 1, VL [gs; ds] => vcres (classify (to_genomes gs) (to_dists ds))
+  | 2, VL [gs; ds] => vcres (classify_orig (to_genomes gs) (to_dists ds))
+  | 3, VL [gs; ds; o] =>
+      match to_obs o with
+      | Some o' => vbool (check (to_genomes gs) (to_dists ds) o')
+      | None => vbad
+      end
+  | 4, VL [VI x; VI y] => vbool (f64_le (f64_of_f32 (f32_of_bits x)) (f64_of_bits y))
+  | 5, VL [VI x; VI y] => vbool (f32_lt (f32_of_bits x) (f32_of_bits y))
+  | 6, VL [x; y] => VL [vbool (to_num x <=? to_num y); vbool (to_num x <? to_num y)]
+  | _, _ => vbad
+  end.
